@@ -60,7 +60,7 @@ def _worker_verify(job):
             out['obligations'].append({
                 'name': ob.name, 'status': ob.status, 'backend': ob.backend, 'seconds': round(ob.seconds, 4),
                 'where': ob.where, 'detail': ob.detail,
-                'model': (contracts.describe_model(v, ob) if ob.status == 'refuted' else None),
+                'model': (contracts.describe_model(v, ob) if ob.model is not None else None),
                 'goal': str(ob.goal)[:400],
             })
         out['assumptions'] = sorted(v.assumptions_used)
